@@ -2,6 +2,7 @@ package props
 
 import (
 	"fmt"
+	"github.com/evanoberholster/imagemeta/exif2/ifds/mknote/canon"
 	"sort"
 
 	"github.com/evanoberholster/imagemeta/exif2"
@@ -57,6 +58,7 @@ func drawPayload(c *Ctx, l *core.Lane, maxStr int, opts gen.LayoutOpts) payload 
 	if l.Chance(1, 12) {
 		rec.DNG = true
 	}
+	tweakRecord(c, rec)
 	ly := gen.BuildTIFF(l, rec, opts)
 	enc := ly.Encode(false)
 	c.Inc("probe:payloads")
@@ -68,6 +70,46 @@ func drawPayload(c *Ctx, l *core.Lane, maxStr int, opts gen.LayoutOpts) payload 
 		c.Inc("probe:pending>=60")
 	}
 	return payload{rec, ly, true}
+}
+
+// knownCanon are names of the library's Canon model table that it reports as written.
+var knownCanon = []string{"Canon EOS R5", "Canon EOS R6", "Canon EOS 90D", "Canon EOS R3", "Canon EOS RP", "Canon EOS 6D", "Canon EOS R"}
+
+// tweakRecord (side lane) covers values the record generator leaves out.
+func tweakRecord(c *Ctx, rec *gen.Record) {
+	y := c.L("rec:y")
+	if rec.GPSTime != nil && y.Chance(1, 3) {
+		// hours and minutes as fractions whose sum is still a whole number of seconds (10/1 h,
+		// 61/2 min, 0/1 s is 10:30:30)
+		dh := uint32([]int{2, 4, 8, 3}[y.Intn(4)])
+		dm := uint32([]int{2, 3, 4, 6, 12}[y.Intn(5)])
+		rec.GPSTime = &[3]gen.Rational{{N: uint32(y.Intn(24 * int(dh))), D: dh}, {N: uint32(y.Intn(60 * int(dm))), D: dm}, {N: uint32(y.Intn(60)), D: 1}}
+		c.Inc("probe:gps-time-fractional-hours-minutes")
+	}
+	if y.Chance(1, 6) {
+		// a camera of the model table: the number reported for it must not depend on whether the
+		// Make or the Model value comes first in the file
+		mk, md := "Canon", knownCanon[y.Intn(len(knownCanon))]
+		if m, ok := canon.CameraModelFromString(md); ok && m.String() == md {
+			rec.Make, rec.Model, rec.KnownModel = &mk, &md, uint32(m)
+			c.Inc("probe:camera-of-the-model-table")
+		}
+		if y.Chance(1, 2) && rec.MakerNote == nil {
+			// a maker note that is no Canon directory (a count in the byte order of an II file and
+			// fewer bytes than that many entries): an unrelated value as far as the fields go
+			n := 8 + y.Intn(30)
+			note := make([]byte, n)
+			for i := range note {
+				note[i] = 1
+			}
+			note[0], note[1] = 3, 0
+			if y.Bool() {
+				note[0], note[1] = 0, 3
+			}
+			rec.MakerNote = note
+			c.Inc("probe:canon-opaque-maker-note")
+		}
+	}
 }
 
 func describeRecord(c *Ctx, r *gen.Record, enc *gen.Encoded) {
@@ -119,7 +161,7 @@ func init() {
 			"distinct = distinct run digests (entry point, device counts, canonical decoded result)",
 		QuickSec: 30, ThoroughSec: 480,
 		Assumptions: []string{
-			"generator restrictions (each because the result type cannot represent more): width/height <= 65535; bias numerator -127..127, denominator 1..127; GPS time rationals with denominators dividing numerators; printable ASCII strings without trailing blank; makes written in the spelling the result reports; at most one of CameraSerialNumber/BodySerialNumber; OwnerName only next to Artist; offsets/sub-seconds only next to their date",
+			"generator restrictions (each because the result type cannot represent more): width/height <= 65535; bias numerator -127..127, denominator 1..127; GPS time rationals whose sum is a whole number of seconds (fractional hours and minutes included); printable ASCII strings without trailing blank; makes written in the spelling the result reports; at most one of CameraSerialNumber/BodySerialNumber; OwnerName only next to Artist; offsets/sub-seconds only next to their date",
 			"rationals are compared within 1 ulp of float32(n)/float32(d) (single- and double-rounded quotients are both faithful); APEX-derived f-number within 0.01; GPS coordinates within 4 ulp (float64)",
 			"fault-free device, pristine shared state (verif hooks), so a failure here is never a C04/C08 effect",
 		},
